@@ -68,44 +68,46 @@ Proof.
 Qed.
 
 Lemma longest_label_spec es ll : longest_label es = Ok ll ->
+  (es = [] /\ ll = []) \/
   exists e, In e es /\ e_label e = ll /\ forall e', In e' es -> (e_width e' <= e_width e)%Z.
 Proof.
-  destruct es as [|e0 es]; [discriminate|]. cbn [longest_label]. intros H. injection H as <-.
-  destruct (max_label_spec es e0) as [e [Hin [Hm Hmax]]]. exists e. auto.
+  destruct es as [|e0 es]; cbn [longest_label]; intros H; injection H as <-.
+  - left. split; reflexivity.
+  - right. destruct (max_label_spec es e0) as [e [Hin [Hm Hmax]]]. exists e. auto.
 Qed.
 
 (* ---- LaTeX ---- *)
 Definition latex_entry (key label text : str) : str :=
   [c_nl; c_nl] ++ (lit "\bibitem[") ++ label ++ (lit "]{") ++ key ++ [c_rbrace; c_nl] ++ text.
 
-(* \begin{thebibliography}{longest label}, one \bibitem[label]{key} per entry in order, \end{thebibliography} *)
+(* \begin{thebibliography}{longest label}, one \bibitem[label]{key} per entry in order, \end{thebibliography};
+   the longest label is the label of an entry of maximal width, or empty when there is no entry *)
+Definition is_longest (es : list fentry) (ll : str) : Prop :=
+  (es = [] /\ ll = []) \/
+  exists e, In e es /\ e_label e = ll /\ forall e', In e' es -> (e_width e' <= e_width e)%Z.
+
 Lemma latex_document_holds enc T php encoding preamble es out :
   write_to_stream enc T BLatex php encoding preamble es = Ok out ->
-  exists e texts, In e es /\ (forall e', In e' es -> (e_width e' <= e_width e)%Z) /\
-    rendered enc T BLatex es texts /\
+  exists ll texts, is_longest es ll /\ rendered enc T BLatex es texts /\
     out = (if is_empty preamble then [] else preamble ++ [c_nl]) ++
-          (lit "\begin{thebibliography}{") ++ e_label e ++ [c_rbrace] ++
+          (lit "\begin{thebibliography}{") ++ ll ++ [c_rbrace] ++
           concat (map (fun p => latex_entry (e_key (fst p)) (e_label (fst p)) (snd p)) (combine es texts)) ++
           [c_nl; c_nl] ++ (lit "\end{thebibliography}") ++ [c_nl].
 Proof.
   intros H. destruct (write_to_stream_spec _ _ _ _ _ _ _ _ H) as [p [texts [Ep [Hr ->]]]].
   cbn [write_prologue] in Ep. destruct (longest_label es) as [ll| | |] eqn:El; try discriminate.
   cbn [bind] in Ep. injection Ep as <-.
-  destruct (longest_label_spec es ll El) as [e [Hin [Hl Hmax]]]. subst ll.
-  exists e, texts. split; [exact Hin|]. split; [exact Hmax|]. split; [exact Hr|].
+  exists ll, texts. split; [exact (longest_label_spec es ll El)|]. split; [exact Hr|].
   unfold entries_text. cbn [write_epilogue app]. repeat (rewrite <- app_assoc; cbn [app]). reflexivity.
 Qed.
 
-(* the LaTeX back end cannot write an empty bibliography: max() of no labels raises ValueError *)
-Lemma latex_empty_bibliography_holds enc T php encoding preamble :
-  write_to_stream enc T BLatex php encoding preamble [] = Crash.
-Proof. reflexivity. Qed.
-
-Lemma latex_nonempty_total enc T php encoding preamble es texts : es <> [] ->
+(* every entry list whose texts render is written -- the empty one included *)
+Lemma latex_total enc T php encoding preamble es texts :
   rendered enc T BLatex es texts -> exists out, write_to_stream enc T BLatex php encoding preamble es = Ok out.
 Proof.
-  intros Hne Hr. unfold write_to_stream. cbn [write_prologue].
-  destruct es as [|e0 es0]; [congruence|]. cbn [longest_label bind].
+  intros Hr. unfold write_to_stream. cbn [write_prologue].
+  assert (Hll : exists ll, longest_label es = Ok ll) by (destruct es; eexists; reflexivity).
+  destruct Hll as [ll Ell]. rewrite Ell. cbn [bind].
   assert (Hw : forall es texts, rendered enc T BLatex es texts -> exists body, write_entries enc T BLatex php es = Ok body).
   { induction 1 as [|e x es' ts Hx Hrest IH]; [exists []; reflexivity|].
     destruct IH as [body Eb]. cbn [write_entries]. rewrite Hx, Eb. cbn [bind]. eexists. reflexivity. }
@@ -127,15 +129,16 @@ Lemma latex_document_balanced_holds enc T php encoding preamble es out :
   write_to_stream enc T BLatex php encoding preamble es = Ok out -> balanced out.
 Proof.
   intros Henc HT Hpre Hes H.
-  destruct (latex_document_holds _ _ _ _ _ _ _ H) as [e [texts [Hin [_ [Hr ->]]]]].
+  destruct (latex_document_holds _ _ _ _ _ _ _ H) as [ll [texts [Hlong [Hr ->]]]].
   rewrite forallb_forall in Hes.
-  assert (Hl : balanced (e_label e)).
-  { specialize (Hes e Hin). unfold entry_balanced in Hes. apply andb_prop in Hes as [H1 _].
+  assert (Hl : balanced ll).
+  { destruct Hlong as [[_ ->]|[e [Hin [<- _]]]]; [apply balanced_nil|].
+    specialize (Hes e Hin). unfold entry_balanced in Hes. apply andb_prop in Hes as [H1 _].
     apply andb_prop in H1 as [_ H2]. apply balanced_b_spec. exact H2. }
   apply balanced_app; [destruct (is_empty preamble); [apply balanced_nil|apply balanced_app; [exact Hpre|reflexivity]]|].
   apply balanced_open; [reflexivity|exact Hl|].
   apply balanced_app; [|reflexivity].
-  clear H Hin Hl e. revert texts Hr. induction es as [|e0 es IH]; intros texts Hr.
+  clear H Hlong Hl ll. revert texts Hr. induction es as [|e0 es IH]; intros texts Hr.
   - inversion Hr; subst. apply balanced_nil.
   - inversion Hr as [|? x ? ts Hx Hrest]; subst. cbn [combine map concat fst snd].
     pose proof (Hes e0 (or_introl eq_refl)) as H0. unfold entry_balanced in H0.
